@@ -68,7 +68,9 @@ type Step struct {
 
 // Scenario is a complete generated case.
 type Scenario struct {
-	Prop  string    `json:"prop"`
+	Prop string `json:"prop"`
+	// Part names the part of the property's check the scenario belongs to (the driver routes a replay by it)
+	Part  string    `json:"part,omitempty"`
 	Note  string    `json:"note,omitempty"`
 	Force bool      `json:"forceAdoption,omitempty"`
 	Tmpls []SetSpec `json:"tmpls,omitempty"` // deployment template pool
@@ -109,6 +111,8 @@ type Runner struct {
 	// armed fault for the next pass
 	faultKind  kubesim.Fault
 	faultNCall int
+	// faultDryRunN > 0: the armed fault hits the n-th dry-run call of the next pass instead of call number faultNCall
+	faultDryRunN, faultDryRunCount int
 	// armed in-pass injection: before the injN-th pool write of the next pass, act on that very key
 	injN, injKind int
 	injCount      int
@@ -219,6 +223,20 @@ func (r *Runner) beforeCall(c *kubesim.Call) kubesim.Fault {
 			r.touchObject(c.Key)
 		}
 	}
+	if r.faultKind != kubesim.FaultNone && r.faultDryRunN > 0 {
+		// "faultDryRun": the fault is aimed at the n-th server-side dry run of the pass
+		if c.Actor == "pko" && c.DryRun {
+			r.faultDryRunCount++
+			if r.faultDryRunCount == r.faultDryRunN {
+				k := r.faultKind
+				r.faultKind, r.faultDryRunN = kubesim.FaultNone, 0
+				r.Labels["fault-fired"] = true
+				r.Labels["fault-on-dry-run"] = true
+				return k
+			}
+		}
+		return kubesim.FaultNone
+	}
 	if r.faultKind != kubesim.FaultNone && c.NCall == r.faultNCall {
 		k := r.faultKind
 		r.faultKind = kubesim.FaultNone
@@ -280,6 +298,11 @@ func (r *Runner) BuildObject(o ObjSpec, cluster bool) corev1alpha1.ObjectSetObje
 	switch o.Special {
 	case "dup":
 		// same identity as an earlier object of the set
+	case "dupver":
+		// same identity as an earlier object of the set, listed under another served API version of its kind
+		if u.GetKind() == "Widget" {
+			u.SetAPIVersion(engine.WidgetGroup + "/v1beta1")
+		}
 	case "ghost":
 		u.SetGroupVersionKind(engine.GVKGhost)
 		u.SetName("ghost-" + strconv.Itoa(mod(o.Pool, 2)))
@@ -674,7 +697,7 @@ func (r *Runner) Reconcile(ctrlName string, key kubesim.Key) (*PassView, error) 
 	}
 	p := r.W.RunPass(ctrlName, engine.Req(key.Namespace, key.Name))
 	if r.nested == 0 {
-		r.faultKind = kubesim.FaultNone
+		r.faultKind, r.faultDryRunN = kubesim.FaultNone, 0
 		r.injN, r.injCount, r.ownerInjN, r.syncInjN = 0, 0, 0, 0
 		r.touchInjN, r.touchCount = 0, 0
 	}
@@ -727,7 +750,7 @@ var AllControllers = []string{
 // round changes nothing. Returns rounds used and whether quiescence was reached.
 func (r *Runner) Quiesce() (int, bool, error) {
 	// disturbances stop: drop armed faults / injections
-	r.faultKind = kubesim.FaultNone
+	r.faultKind, r.faultDryRunN = kubesim.FaultNone, 0
 	r.touchInjN = 0
 	r.injN, r.ownerInjN, r.syncInjN = 0, 0, 0
 	for round := 1; round <= r.MaxQuiesceRounds; round++ {
@@ -796,6 +819,11 @@ func (r *Runner) Exec(idx int, st Step) error {
 			kubesim.FaultStatusInternal, kubesim.FaultStatusTooManyRequests, kubesim.FaultStatusUnavailable, kubesim.FaultStatusTimeout}
 		r.faultKind = kinds[mod(st.J, len(kinds))]
 		r.faultNCall = 1 + mod(st.I, 40)
+	case "faultDryRun":
+		kinds := []kubesim.Fault{kubesim.FaultErrorBefore, kubesim.FaultStatusInternal, kubesim.FaultStatusTooManyRequests, kubesim.FaultStatusUnavailable, kubesim.FaultStatusTimeout}
+		r.faultKind = kinds[mod(st.J, len(kinds))]
+		r.faultDryRunN = 1 + mod(st.I, 6)
+		r.faultDryRunCount = 0
 	case "injectTouch":
 		r.touchInjN = 1 + mod(st.I, 6)
 		r.touchCount = 0
